@@ -7,7 +7,7 @@ CONSTANTS
   MinParams = 2
   MaxParams = 2
   ParamTypes = {"int", "str"}
-  ArgTypes = {"int", "any", "int|str"}
+  ArgTypes = {"int", "any", "int|str", "any|str"}
   Names = {"x", "y"}
   Kinds = {"pk"}
   Defaults = {FALSE}
@@ -16,4 +16,6 @@ CONSTANTS
   MaxRet = 4
   DistinctRets = TRUE
   MaxUnionArgs = 1
+  EmitOneIn = 1
+INVARIANT EmitKinds
 CHECK_DEADLOCK FALSE
